@@ -846,9 +846,9 @@ impl Values<bool> for Intervals<bool> {
 
 impl Values<i64> for Intervals<i64> {
     fn values_len(&self) -> Option<usize> {
-        let min = (*self.min()?).clamp(-(self.capacity as i64), self.capacity as i64);
-        let max = (*self.max()?).clamp(-(self.capacity as i64), self.capacity as i64);
-        Some((max - min) as usize)
+        // The width is computed without overflow and clamped into a usize
+        let width = self.max()?.abs_diff(*self.min()?);
+        Some(usize::try_from(width).unwrap_or(usize::MAX))
     }
     fn max_value_len(&self) -> usize {
         self.capacity
